@@ -517,31 +517,32 @@ Theorem content_only_through_cipher (mode : Z) (mm : list bool) (pre_coders : li
 Proof. rewrite !write_archive_spec by exact Hbs. rewrite Hmeta, Hcipher. reflexivity. Qed.
 
 (* the layout of an archive with an encrypted header: everything around the two ciphertexts is a
-   function of the packed size, the header coder (its IV), the header ciphertext and the LENGTH of
-   the raw header *)
+   function of the packed size, the header coder (its IV), the header ciphertext, and the LENGTH and the
+   CRC-32 of the raw header (the CRC record that lets the reader reject a wrong password) *)
 Lemma assemble2_plain_parts (h : header) (packed : bytes) (hcs : list coder) (hp : bytes) :
   assemble 2 h packed hcs hp =
   (do hraw <- write_header true 0 h;
-   do sd <- plain_parts (blen packed) hcs hp (blen hraw);
+   do sd <- plain_parts (blen packed) hcs hp (blen hraw) (crc32 hraw);
    Ok (fst sd ++ packed ++ hp ++ snd sd)).
 Proof.
   unfold assemble, plain_parts. change (2 =? 0) with false. cbv iota.
   destruct (write_header true 0 h) as [hraw|e]; cbn [bind]; [|reflexivity].
-  destruct (hdr_descriptor (blen packed) hcs (blen hp) (blen hraw) (crc32 hp)) as [desc|e]; cbn [bind]; [|reflexivity].
+  destruct (hdr_descriptor (blen packed) hcs (blen hp) (blen hraw) (crc32 hp) (crc32 hraw)) as [desc|e]; cbn [bind]; [|reflexivity].
   destruct (sig_header (blen packed + blen hp) (blen desc) (crc32 desc)) as [sg|e]; cbn [bind]; reflexivity.
 Qed.
 
 Theorem names_only_through_cipher (h h' : header) (packed : bytes) (hcs : list coder) (hp : bytes) (r1 r2 : bytes)
-  (H1 : write_header true 0 h = Ok r1) (H2 : write_header true 0 h' = Ok r2) (Hlen : blen r1 = blen r2) :
+  (H1 : write_header true 0 h = Ok r1) (H2 : write_header true 0 h' = Ok r2)
+  (Hlen : blen r1 = blen r2) (Hcrc : crc32 r1 = crc32 r2) :
   assemble 2 h packed hcs hp = assemble 2 h' packed hcs hp.
-Proof. rewrite !assemble2_plain_parts, H1, H2. cbn [bind]. now rewrite Hlen. Qed.
+Proof. rewrite !assemble2_plain_parts, H1, H2. cbn [bind]. now rewrite Hlen, Hcrc. Qed.
 
 (* session level: with header encryption two metadata records (e.g. different NAMES, times, CRCs)
-   whose raw headers have the same length and the same ciphertext give the same archive *)
+   whose raw headers have the same length, the same CRC-32 and the same ciphertext give the same archive *)
 Theorem names_only_through_header_cipher (hcoder : coder) (m m' : meta) (packed : bytes) (r : rng) (p0 : nat)
         (hraw hraw' : bytes)
   (H1 : header_raw m packed = Ok hraw) (H2 : header_raw m' packed = Ok hraw')
-  (Hlen : blen hraw = blen hraw')
+  (Hlen : blen hraw = blen hraw') (Hcrc : crc32 hraw = crc32 hraw')
   (Hc : fst (cbc_enc Eb (draw16 r (draw_pos p0 1)) (pad16 hraw)) =
         fst (cbc_enc Eb (draw16 r (draw_pos p0 1)) (pad16 hraw'))) :
   archive_of Eb hdr_lzma 2 hcoder m packed r p0 = archive_of Eb hdr_lzma 2 hcoder m' packed r p0.
@@ -551,7 +552,7 @@ Proof.
   destruct (mk_header m' (blen packed) (crc32 packed)) as [h'|e]; cbn [bind] in *; [|discriminate].
   rewrite H1, H2. cbn [bind].
   destruct (aes_coder (draw16 r (draw_pos p0 1))) as [hc|e]; cbn [bind]; [|reflexivity].
-  rewrite Hc, (names_only_through_cipher h h' packed [hc] _ hraw hraw' H1 H2 Hlen). reflexivity.
+  rewrite Hc, (names_only_through_cipher h h' packed [hc] _ hraw hraw' H1 H2 Hlen Hcrc). reflexivity.
 Qed.
 
 (* what the metadata record is made of: no content byte, but the CRC-32 of every plaintext *)
@@ -803,13 +804,10 @@ Proof. unfold decoded_header. destruct b as [|p|p]; try reflexivity. destruct p;
 Lemma decoded_header_empty (lim : Z) : decoded_header lim [] = Err EOther.
 Proof. reflexivity. Qed.
 
-(* THE acceptance condition: the decrypted bytes, cut to the stored unpack size, begin with 01 and
-   parse as a header body.  No CRC is involved: UnpackInfo.write stores none. *)
-Theorem encrypted_header_wrong_pw_accept_condition (Db' : bytes -> bytes) (lim : Z) (ivh hp : bytes) (n : Z) (h : header) :
-  open_encrypted_header Db' lim ivh hp n = Ok h <->
-  exists r rest, takeZ n (fst (cbc_dec Db' ivh hp)) = 1 :: r /\ parse_header_body lim r = Ok (h, rest).
+Lemma decoded_header_ok_iff (lim : Z) (buf : bytes) (h : header) :
+  decoded_header lim buf = Ok h <-> exists r rest, buf = 1 :: r /\ parse_header_body lim r = Ok (h, rest).
 Proof.
-  unfold open_encrypted_header. set (buf := takeZ n (fst (cbc_dec Db' ivh hp))). clearbody buf. split.
+  split.
   - intros H. destruct buf as [|b r]; [discriminate|].
     destruct (Z.eq_dec b 1) as [->|Hb]; [|rewrite decoded_header_first_byte in H by exact Hb; discriminate].
     cbn [decoded_header] in H. destruct (parse_header_body lim r) as [[h' rest]|e] eqn:Ep; cbn [bind] in H; [|discriminate].
@@ -817,15 +815,67 @@ Proof.
   - intros (r & rest & -> & Hp). cbn [decoded_header]. rewrite Hp. reflexivity.
 Qed.
 
+(* THE acceptance condition under any key.  With the CRC record (what py7zr writes): the decrypted bytes, cut to
+   the stored unpack size, have the stored CRC-32, begin with 01 and parse as a header body.  Without it (a
+   foreign archive): only the last two. *)
+Theorem encrypted_header_wrong_pw_accept_condition (Db' : bytes -> bytes) (lim : Z) (ivh hp : bytes) (n : Z)
+        (fcrc : option Z) (h : header) :
+  open_encrypted_header Db' lim ivh hp n fcrc = Ok h <->
+  (match fcrc with Some c => crc32 (takeZ n (fst (cbc_dec Db' ivh hp))) = c | None => True end) /\
+  exists r rest, takeZ n (fst (cbc_dec Db' ivh hp)) = 1 :: r /\ parse_header_body lim r = Ok (h, rest).
+Proof.
+  unfold open_encrypted_header, checked_header. set (buf := takeZ n (fst (cbc_dec Db' ivh hp))). clearbody buf.
+  destruct fcrc as [c|].
+  - destruct (crc32 buf =? c) eqn:E.
+    + rewrite decoded_header_ok_iff. apply Z.eqb_eq in E. tauto.
+    + apply Z.eqb_neq in E. split; [discriminate | tauto].
+  - rewrite decoded_header_ok_iff. tauto.
+Qed.
+
+(* what py7zr writes carries the CRC of the plain header: under ANY key the header opens only if the decrypted
+   bytes have that CRC -- a wrong key is rejected with Bad7zFile unless the garbage collides in CRC-32 *)
+Theorem encrypted_header_wrong_pw_error_or_collision (Db' : bytes -> bytes) (lim : Z) (ivh hp hraw : bytes) :
+  match open_encrypted_header Db' lim ivh hp (blen hraw) (Some (crc32 hraw)) with
+  | Ok _ => crc32 (takeZ (blen hraw) (fst (cbc_dec Db' ivh hp))) = crc32 hraw
+  | Err e => crc32 (takeZ (blen hraw) (fst (cbc_dec Db' ivh hp))) <> crc32 hraw -> e = EBad7z
+  end.
+Proof.
+  unfold open_encrypted_header, checked_header.
+  destruct (crc32 (takeZ (blen hraw) (fst (cbc_dec Db' ivh hp))) =? crc32 hraw) eqn:E.
+  - apply Z.eqb_eq in E. destruct (decoded_header _ _); [exact E | intros Hne; congruence].
+  - reflexivity.
+Qed.
+
+(* the right key opens what the writer wrote (header of any length, CRC record present) *)
+Theorem encrypted_header_right_key (Eb Db : bytes -> bytes)
+  (Db_Eb : forall x : bytes, length x = 16%nat -> Db (Eb x) = x)
+  (Eb_len : forall x : bytes, length x = 16%nat -> length (Eb x) = 16%nat)
+  (lim : Z) (ivh : bytes) (Hiv : length ivh = 16%nat) (hraw : bytes) :
+  open_encrypted_header Db lim ivh (fst (cbc_enc Eb ivh (pad16 hraw))) (blen hraw) (Some (crc32 hraw)) =
+  decoded_header lim hraw.
+Proof.
+  unfold open_encrypted_header, checked_header.
+  rewrite (cbc_dec_enc Eb Db Db_Eb Eb_len ivh _ Hiv (pad16_aligned _)).
+  unfold pad16. rewrite blen_zlen, takeZ_app_exact, Z.eqb_refl. reflexivity.
+Qed.
+
 (* garbage that begins 01 00 IS a header: that of an empty archive, whatever follows *)
 Theorem encrypted_header_accepts_01_00 (lim : Z) (rest : bytes) :
   decoded_header lim (1 :: 0 :: rest) = Ok (mkHeader None None []).
 Proof. reflexivity. Qed.
 
+(* first decrypted byte <> 01 and no CRC record: TypeError; with a CRC record the CRC is compared first *)
 Theorem encrypted_header_wrong_pw_partial (Db' : bytes -> bytes) (lim : Z) (ivh hp : bytes) (n b : Z) (r : bytes)
+        (fcrc : option Z)
   (Hbuf : takeZ n (fst (cbc_dec Db' ivh hp)) = b :: r) (Hb : b <> 1) :
-  open_encrypted_header Db' lim ivh hp n = Err EOther.
-Proof. unfold open_encrypted_header. rewrite Hbuf. now apply decoded_header_first_byte. Qed.
+  exists e, open_encrypted_header Db' lim ivh hp n fcrc = Err e /\ (e = EOther \/ e = EBad7z).
+Proof.
+  unfold open_encrypted_header, checked_header. rewrite Hbuf. destruct fcrc as [c|].
+  - destruct (crc32 (b :: r) =? c).
+    + exists EOther. split; [now apply decoded_header_first_byte | now left].
+    + exists EBad7z. split; [reflexivity | now right].
+  - exists EOther. split; [now apply decoded_header_first_byte | now left].
+Qed.
 
 (* a concrete instance: header of a one-member archive, encrypted under key K, opened under K' <> K *)
 Definition ex_meta : meta :=
@@ -835,11 +885,25 @@ Definition ex_K : bytes := map Z.of_nat (seq 7 32).
 Definition ex_K' : bytes := 7 :: 12 :: map Z.of_nat (seq 9 30).    (* differs from ex_K in one byte: 8 xor 4 *)
 Definition ex_hcipher : bytes := fst (cbc_enc (toyK ex_K) ex_iv (pad16 ex_hraw)).
 
-Theorem encrypted_header_wrong_password_refuted :
+(* as py7zr writes it (CRC record): the wrong key is rejected, the right key opens it *)
+Example encrypted_header_wrong_key_rejected :
   ex_K <> ex_K' /\
-  (exists h, open_encrypted_header (toyK ex_K) 4096 ex_iv ex_hcipher (blen ex_hraw) = Ok h /\
+  (exists h, open_encrypted_header (toyK ex_K) 4096 ex_iv ex_hcipher (blen ex_hraw) (Some (crc32 ex_hraw)) = Ok h /\
              h_files h <> None) /\
-  open_encrypted_header (toyK ex_K') 4096 ex_iv ex_hcipher (blen ex_hraw) = Ok (mkHeader None None []).
+  open_encrypted_header (toyK ex_K') 4096 ex_iv ex_hcipher (blen ex_hraw) (Some (crc32 ex_hraw)) = Err EBad7z.
+Proof.
+  split; [vm_compute; congruence|]. split.
+  - eexists. split; [vm_compute; reflexivity | discriminate].
+  - vm_compute. reflexivity.
+Qed.
+
+(* a FOREIGN archive whose encoded header carries no CRC record: "a wrong password fails with an error" is
+   refuted -- the same ciphertext opens under K' as an EMPTY archive *)
+Theorem encrypted_header_without_crc_refuted :
+  ex_K <> ex_K' /\
+  (exists h, open_encrypted_header (toyK ex_K) 4096 ex_iv ex_hcipher (blen ex_hraw) None = Ok h /\
+             h_files h <> None) /\
+  open_encrypted_header (toyK ex_K') 4096 ex_iv ex_hcipher (blen ex_hraw) None = Ok (mkHeader None None []).
 Proof.
   split; [vm_compute; congruence|]. split.
   - eexists. split; [vm_compute; reflexivity | discriminate].
@@ -882,31 +946,24 @@ Example iv_fresh_example :
 Proof. split; [vm_compute; congruence | reflexivity]. Qed.
 
 (* two different member names of equal length: with header encryption the bytes around the header
-   ciphertext are the same, whatever that ciphertext is *)
+   ciphertext differ ONLY through the CRC-32 of the plain header *)
 Definition ex_meta' : meta :=
   mkMeta [[112; 117; 98; 108; 105; 99]] [133000000000000000] [32] [24] [305419896] [24] [] ex_iv.
 
 Example names_example :
   mt_names ex_meta <> mt_names ex_meta' /\
-  (exists h h' r1 r2, mk_header ex_meta 32 7 = Ok h /\ mk_header ex_meta' 32 7 = Ok h' /\ h <> h' /\
-     write_header true 0 h = Ok r1 /\ write_header true 0 h' = Ok r2 /\ r1 <> r2 /\ blen r1 = blen r2 /\
-     forall hcs hp, assemble 2 h (ex_plain 32) hcs hp = assemble 2 h' (ex_plain 32) hcs hp).
+  (exists r1 r2, header_raw ex_meta (ex_plain 32) = Ok r1 /\ header_raw ex_meta' (ex_plain 32) = Ok r2 /\
+     r1 <> r2 /\ blen r1 = blen r2 /\
+     forall hcs hp c, plain_parts 32 hcs hp (blen r1) c = plain_parts 32 hcs hp (blen r2) c).
 Proof.
   split; [vm_compute; congruence|].
-  destruct (mk_header ex_meta 32 7) as [h|] eqn:E1; [|vm_compute in E1; discriminate].
-  destruct (mk_header ex_meta' 32 7) as [h'|] eqn:E2; [|vm_compute in E2; discriminate].
-  destruct (write_header true 0 h) as [r1|] eqn:E3;
-    [|vm_compute in E1; injection E1 as <-; vm_compute in E3; discriminate].
-  destruct (write_header true 0 h') as [r2|] eqn:E4;
-    [|vm_compute in E2; injection E2 as <-; vm_compute in E4; discriminate].
-  exists h, h', r1, r2.
+  destruct (header_raw ex_meta (ex_plain 32)) as [r1|] eqn:E1; [|vm_compute in E1; discriminate].
+  destruct (header_raw ex_meta' (ex_plain 32)) as [r2|] eqn:E2; [|vm_compute in E2; discriminate].
+  exists r1, r2.
   assert (Hlen : blen r1 = blen r2).
-  { vm_compute in E1, E2. injection E1 as <-. injection E2 as <-.
-    vm_compute in E3, E4. injection E3 as <-. injection E4 as <-. reflexivity. }
+  { vm_compute in E1, E2. injection E1 as <-. injection E2 as <-. reflexivity. }
   assert (Hne : r1 <> r2).
-  { vm_compute in E1, E2. injection E1 as <-. injection E2 as <-.
-    vm_compute in E3, E4. injection E3 as <-. injection E4 as <-. congruence. }
-  repeat split; try assumption.
-  - intros ->. rewrite E3 in E4. injection E4 as ->. congruence.
-  - intros hcs hp. exact (names_only_through_cipher h h' _ hcs hp r1 r2 E3 E4 Hlen).
+  { vm_compute in E1, E2. injection E1 as <-. injection E2 as <-. congruence. }
+  repeat split; try assumption; try reflexivity.
+  intros hcs hp c. now rewrite Hlen.
 Qed.
